@@ -94,8 +94,8 @@ def impl_file(tmp, pem, opts, header=None, footer=None):
     """cmd_convert.main(...) with the given options; returns the text of the C file"""
     p, out = os.path.join(tmp, "k.pem"), os.path.join(tmp, "out.c")
     open(p, "wb").write(pem)
-    if os.path.exists(out):
-        os.remove(out)
+    with open(out, "w", encoding="utf-8") as fh:      # the output path already holds a longer, older file
+        fh.write("/* stale */ 0x5a, 0x5a,\n" * 2000)
     o = dict(DEFAULTS, **opts)
     for nm, txt in (("header_file", header), ("footer_file", footer)):
         if txt is not None:
